@@ -572,7 +572,7 @@ class Z80(Snapshot):
                     size = len(reg) - 1
                 else:
                     size = len(reg)
-                if reg == 'pc' and sum(self.header[6:8]) > 0:
+                if reg == 'pc' and len(self.header) == 30:
                     offset = 6
                 else:
                     offset = Z80_REGISTERS.get(reg, -1)
